@@ -12,8 +12,10 @@ import (
 	"math/rand/v2"
 	"os"
 	"strings"
+	"sync"
 	"time"
 
+	"github.com/jech/galene/rtpconn"
 	"github.com/pion/rtcp"
 	"github.com/pion/rtp"
 	pcodecs "github.com/pion/rtp/codecs"
@@ -25,6 +27,7 @@ import (
 
 // Rx is one packet as a subscriber received it.
 type Rx struct {
+	SSRC   uint32
 	ID     uint32
 	Seq    uint16
 	Marker bool
@@ -46,6 +49,48 @@ type Result struct {
 	RembAt    int      // id around which A sent the low REMB (-1 none)
 	BJoinedAt int      // id around which B's request was sent
 	UDPErrors int64    // movement of the kernel's UDP error counters during the session
+	Start     uint16   // source sequence number of id 0
+}
+
+// The server's own account of what it deliberately withheld: every successful
+// packetmap.Drop of a down track, keyed by the SSRC that down track sends with (trace
+// point VerifTraceWithheld, build tag verif).  Ids a subscriber did not receive and that
+// are not in this set were lost (in the kernel, in pion, or in the server's congested
+// writer, which galene treats like network loss), not withheld.
+var (
+	withheldMu   sync.Mutex
+	withheld     = map[uint32]map[uint16]bool{}
+	withheldOnce sync.Once
+)
+
+func installRecorder() {
+	withheldOnce.Do(func() {
+		rtpconn.VerifSetTraceHook(func(ssrc uint32, kind int, a, b uint16) {
+			if kind != rtpconn.VerifTraceWithheld {
+				return
+			}
+			withheldMu.Lock()
+			m := withheld[ssrc]
+			if m == nil {
+				m = map[uint16]bool{}
+				withheld[ssrc] = m
+			}
+			m[a] = true
+			withheldMu.Unlock()
+		})
+	})
+}
+
+// Withheld returns the ids (source sequence number minus res.Start) the server withheld
+// from the down track sending with ssrc.
+func (res Result) Withheld(ssrc uint32) map[int]bool {
+	out := map[int]bool{}
+	withheldMu.Lock()
+	defer withheldMu.Unlock()
+	for s := range withheld[ssrc] {
+		out[int(s-res.Start)] = true
+	}
+	return out
 }
 
 func udpErrors() int64 {
@@ -93,7 +138,7 @@ func collect(d *vrtc.Down) []Rx {
 }
 
 func toRx(p *rtp.Packet, order int) Rx {
-	r := Rx{Seq: p.SequenceNumber, Marker: p.Marker, TS: p.Timestamp, Raw: string(p.Payload), Order: order}
+	r := Rx{SSRC: p.SSRC, Seq: p.SequenceNumber, Marker: p.Marker, TS: p.Timestamp, Raw: string(p.Payload), Order: order}
 	var v pcodecs.VP8Packet
 	if _, err := v.Unmarshal(p.Payload); err == nil {
 		r.Pid = v.PictureID
@@ -108,6 +153,7 @@ func toRx(p *rtp.Packet, order int) Rx {
 // Run executes one session.  n = number of source packets (1 per millisecond).
 func Run(srv *vsrv.Server, name string, n int, r *rand.Rand) Result {
 	res := Result{RembAt: -1, BJoinedAt: -1}
+	installRecorder()
 	g := "m-" + name
 	srv.WriteGroup(g, map[string]any{"users": map[string]any{"u": map[string]any{"password": "pw", "permissions": "present"}}})
 	dial := func(id string) (*vclient.Client, *vrtc.Peer, bool) {
@@ -146,6 +192,7 @@ func Run(srv *vsrv.Server, name string, n int, r *rand.Rand) Result {
 	if r.IntN(2) == 0 {
 		start = uint16(65536 - 100 - r.IntN(n/2)) // wrap during the session
 	}
+	res.Start = start
 	pidStart := uint16(r.UintN(32768))
 	pattern := []uint8{0, 2, 1, 2}
 	var bc *vclient.Client
